@@ -457,6 +457,8 @@ def run(tier):
                         # entries of one payload had to be applied out of order (a target created by a later
                         # entry of the same payload): counted here, judged by C05's "assembled so far" clause
                         ck.count("payloads_needing_in_payload_reordering", py_merge.last_reordered)
+                        ck.violation(key, "an incremental entry targets a position that a later entry of the same payload creates (entries cannot be applied in order)",
+                                     dict(rep, payloads=payloads, initial=initial))
                         payloads = [dict(p, incremental=o) if "incremental" in p else p
                                     for p, o in zip(payloads, py_merge.last_order)]
                     merge_cases.append(enc_merge_case(initial, payloads))
